@@ -306,6 +306,13 @@ def g1_discharged(st, kind, what, fn_summ):
             if n_ is not None and n_ <= found_at:
                 return f"position(..) == Some({found_at}) in the same slice dominates the constant index"
         pos = position_index(idx)
+        if pos is not None and not known_some(pc, pos[0]) and any(c[0] == "closure" for c in pc) and fn_summ is not None:
+            # `position(..).map(|i| (&xs[..i], &xs[i + 1..]))`: the closure of an Option combinator only runs when the position was found
+            outer = [fn_summ.ret] + [r[0] for r in fn_summ.returns] + [a for x in fn_summ.all_sites() for a in (x.args or []) if isinstance(a, tuple)]
+            in_comb = any(y[0] == "hof" and y[1] in ("map", "and_then", "is_some_and", "map_or", "map_or_else", "filter", "inspect") and y[2] == pos[0]
+                          for t_ in outer if isinstance(t_, tuple) for y in [t_] + list(subterms(t_)))
+            if in_comb and slice_of(pos[0]) == base and pos[1] != "i-1":
+                return "inside the closure of an Option combinator on position(..): the position was found"
         if pos is not None and known_some(pc, pos[0]):
             # tokens[i], tokens[..i], tokens[i+1..]: i is a valid position of the same slice
             if slice_of(pos[0]) == base:
@@ -987,7 +994,7 @@ def check_validator_placement(prog, rep, eng, roots):
             rep.unresolved("C14-R2", name, "", "no function of the driver module calls the " + ("extended" if extended else "plain") + " parser + preprocessing")
             continue
         rep.functions.add(f.qual)
-        s = veng.summary(f)
+        s = pipelines.validator_summary(veng, f)
         pn = f.param_names()
         graph = ("param", pn[1])
         where = f"{f.file}:{f.line}"
